@@ -78,6 +78,14 @@ class NotACoordinate(Exception):
     pass
 
 
+def _z(v):
+    """a Python int as a Gallina Z literal: big ones in hexadecimal (Coq 8.16 converts a decimal
+    literal in quadratic time: 200 literals of 300 digits take 28 s, the same in hex 2 s)"""
+    if -2**63 < v < 2**63:
+        return v
+    return C.Raw('(%s0x%x)%%Z' % ('-' if v < 0 else '', abs(v)))
+
+
 def znum(x, k):
     """implementation number -> model num at scale 2^k (None for NaN / inf)"""
     xf = float(x)
@@ -86,7 +94,7 @@ def znum(x, k):
     z = _dy_int(xf, k)
     if z is None:
         raise NotACoordinate(repr(xf))
-    return C.Some(z)
+    return C.Some(_z(z))
 
 
 def _raw_values(arr, kind):
@@ -133,10 +141,10 @@ def export_exact(arr, kind):
         pv = [float(v) for v in vals]            # float32 -> float64 is exact
         fin = [v for v in pv if math.isfinite(v)]
         k = max([_dy_exp(v) for v in fin], default=0)
-        zs = [C.Some(_dy_int(v, k)) if math.isfinite(v) else None for v in pv]
+        zs = [C.Some(_z(_dy_int(v, k))) if math.isfinite(v) else None for v in pv]
     else:
         k = 0
-        zs = [C.Some(int(v)) for v in vals]
+        zs = [C.Some(_z(int(v))) for v in vals]
     return build(zs), k
 
 
@@ -331,12 +339,12 @@ CORPUS = [
 def wide_arrays(rep, tier, agree, la_fn, fa_fn, imports, res_ty):
     rng = rep.rng
     scale = getattr(rep, 'scale', 1)
-    reps_of = {'float64': 10, 'float32': 5}
+    reps_of = {'float64': 16, 'float32': 8}
     mult = scale if tier == 'quick' else 15
     batches = {'listarr': ([], [], []), 'fixarr': ([], [], [])}
     nagree = 0
     todo = [(kind, st, r, None) for kind in G.KINDS for st in ALL_SUBTYPES
-            for r in range(reps_of.get(st, 3) * mult)]
+            for r in range(reps_of.get(st, 5) * mult)]
     for kind, st, r, fixed in [(c[0], c[1], 0, c) for c in CORPUS] + todo:
         if fixed is not None:
             cls, els = 'corpus:' + fixed[3], fixed[2]
@@ -383,7 +391,7 @@ def wide_arrays(rep, tier, agree, la_fn, fa_fn, imports, res_ty):
             agree(rep, arr, meta)
     for ty, fn in (('listarr', la_fn), ('fixarr', fa_fn)):
         cases, ress, metas = batches[ty]
-        bad = C.coq_mismatches(imports, fn, ty, res_ty, cases, ress)
+        bad = C.coq_mismatches(imports, fn, ty, res_ty, cases, ress, shard=40)
         for i in bad[:12]:
             model = C.coq_eval(imports, f'({fn}) {C.coq(cases[i])}')
             m = metas[i]
@@ -582,7 +590,7 @@ def dask_provenances(rep, tier, specs=None, which=None):
     rng = rep.rng
     scale = getattr(rep, 'scale', 1)
     if specs is None:
-        specs = [make_frame_spec(rng, tier, first=(i == 0)) for i in range(10 * scale if tier == 'quick' else 150)]
+        specs = [make_frame_spec(rng, tier, first=(i == 0)) for i in range(12 * scale if tier == 'quick' else 150)]
     box_cases, box_res, box_meta = [], [], []
     nframes = 0
     for spec in specs:
